@@ -15,63 +15,69 @@ VARIABLES st,      \* [n, b, a]  writeState: count, blocked bit, deadline-armed 
           pc,      \* pc[p]: the yield point process p is parked at ("done" = returned)
           tmp,     \* tmp[p]: the state word p loaded last
           left,    \* left[w]: writes writer w still has to start after the current one
-          probe    \* result of the probe write issued after everybody returned: "none" | "ok" | "timeout" | "stuck"
-vars == <<st, dl, pc, tmp, left, probe>>
+          probe,   \* result of the probe write issued after everybody returned: "none" | "ok" | "timeout" | "stuck"
+          hit,     \* history: writers that were in flight when an abort took effect (blocked bit set) since they entered
+          spur     \* history: some socket write timed out although no abort took effect while it was in flight
+vars == <<st, dl, pc, tmp, left, probe, hit, spur>>
 Procs == Writers \cup Aborters
 S0 == [n |-> 0, b |-> FALSE, a |-> FALSE]
 PC0 == [p \in Procs |-> IF p \in Writers THEN "w_load" ELSE "a_load"]
 Init == st = S0 /\ dl = "none" /\ pc = PC0 /\ tmp = [p \in Procs |-> S0]
-        /\ left = [w \in Writers |-> Rounds - 1] /\ probe = "none"
+        /\ left = [w \in Writers |-> Rounds - 1] /\ probe = "none" /\ hit = {} /\ spur = FALSE
 goto(p, l) == pc' = [pc EXCEPT ![p] = l] /\ UNCHANGED left
 \* a writer returns from writeTo: next write or done
 ret(p) == IF left[p] > 0 THEN pc' = [pc EXCEPT ![p] = "w_load"] /\ left' = [left EXCEPT ![p] = @ - 1]
           ELSE pc' = [pc EXCEPT ![p] = "done"] /\ UNCHANGED left
 load(p) == tmp' = [tmp EXCEPT ![p] = st]
 keepT == UNCHANGED tmp
+keepH == UNCHANGED <<hit, spur>>
+InFlightPCs == {"w_write", "f_load", "f_caslast", "f_cas"}
 
 \* ---- writer: startWriteContext
-WLoad(p) == pc[p] = "w_load" /\ load(p) /\ UNCHANGED <<st, dl, probe>>
+WLoad(p) == keepH /\ pc[p] = "w_load" /\ load(p) /\ UNCHANGED <<st, dl, probe>>
             /\ IF st.b THEN goto(p, "w_load") ELSE goto(p, "w_cas")
-WCas(p) == pc[p] = "w_cas" /\ keepT /\ UNCHANGED <<dl, probe>>
-           /\ IF st = tmp[p] THEN st' = [st EXCEPT !.n = @ + 1] /\ goto(p, "w_write")
-                             ELSE UNCHANGED st /\ goto(p, "w_load")
+WCas(p) == pc[p] = "w_cas" /\ keepT /\ UNCHANGED <<dl, probe, spur>>
+           /\ IF st = tmp[p] THEN st' = [st EXCEPT !.n = @ + 1] /\ goto(p, "w_write") /\ hit' = hit \ {p}
+                             ELSE UNCHANGED <<st, hit>> /\ goto(p, "w_load")
 \* ---- socket write: completes when no deadline is set, times out when the deadline is armed
-WWriteOk(p)  == pc[p] = "w_write" /\ dl = "none" /\ goto(p, "f_load") /\ UNCHANGED <<st, dl, tmp, probe>>
-WWriteTmo(p) == pc[p] = "w_write" /\ dl = "now"  /\ goto(p, "f_load") /\ UNCHANGED <<st, dl, tmp, probe>>
+WWriteOk(p)  == keepH /\ pc[p] = "w_write" /\ dl = "none" /\ goto(p, "f_load") /\ UNCHANGED <<st, dl, tmp, probe>>
+WWriteTmo(p) == pc[p] = "w_write" /\ dl = "now"  /\ goto(p, "f_load") /\ UNCHANGED <<st, dl, tmp, probe, hit>>
+                /\ spur' = (spur \/ p \notin hit)
 \* ---- finishWrite
-FLoad(p) == pc[p] = "f_load" /\ load(p) /\ UNCHANGED <<st, dl, probe>>
+FLoad(p) == keepH /\ pc[p] = "f_load" /\ load(p) /\ UNCHANGED <<st, dl, probe>>
             /\ IF st.n = 0 THEN ret(p)
                ELSE IF st.b /\ st.n = 1 THEN goto(p, "f_caslast") ELSE goto(p, "f_cas")
-FCasLast(p) == pc[p] = "f_caslast" /\ keepT /\ UNCHANGED <<dl, probe>>
+FCasLast(p) == keepH /\ pc[p] = "f_caslast" /\ keepT /\ UNCHANGED <<dl, probe>>
             /\ IF st = tmp[p] THEN st' = [st EXCEPT !.n = @ - 1] /\ goto(p, "c_load")
                               ELSE UNCHANGED st /\ goto(p, "f_load")
-FCas(p) == pc[p] = "f_cas" /\ keepT /\ UNCHANGED <<dl, probe>>
+FCas(p) == keepH /\ pc[p] = "f_cas" /\ keepT /\ UNCHANGED <<dl, probe>>
             /\ IF st = tmp[p] THEN st' = [st EXCEPT !.n = @ - 1] /\ ret(p)
                               ELSE UNCHANGED st /\ goto(p, "f_load")
 \* ---- clearWriteDeadlineAfterAbort
-CLoad(p) == pc[p] = "c_load" /\ load(p) /\ UNCHANGED <<st, dl, probe>>
+CLoad(p) == keepH /\ pc[p] = "c_load" /\ load(p) /\ UNCHANGED <<st, dl, probe>>
             /\ IF ~st.b THEN ret(p) ELSE IF ~st.a THEN goto(p, "c_load") ELSE goto(p, "c_clear")
-CClear(p) == pc[p] = "c_clear" /\ dl' = "none" /\ goto(p, "c_store") /\ UNCHANGED <<st, tmp, probe>>
-CStore(p) == pc[p] = "c_store" /\ st' = S0 /\ ret(p) /\ UNCHANGED <<dl, tmp, probe>>
+CClear(p) == keepH /\ pc[p] = "c_clear" /\ dl' = "none" /\ goto(p, "c_store") /\ UNCHANGED <<st, tmp, probe>>
+CStore(p) == keepH /\ pc[p] = "c_store" /\ st' = S0 /\ ret(p) /\ UNCHANGED <<dl, tmp, probe>>
 
 \* ---- aborter: abortWrite
-ALoad(p) == pc[p] = "a_load" /\ load(p) /\ UNCHANGED <<st, dl, probe>>
+ALoad(p) == keepH /\ pc[p] = "a_load" /\ load(p) /\ UNCHANGED <<st, dl, probe>>
             /\ IF st.b \/ st.n = 0 THEN goto(p, "done") ELSE goto(p, "a_cas")
-ACas(p) == pc[p] = "a_cas" /\ keepT /\ UNCHANGED <<dl, probe>>
-            /\ IF st = tmp[p] THEN st' = [st EXCEPT !.b = TRUE] /\ goto(p, "a_arm")
-                              ELSE UNCHANGED st /\ goto(p, "a_load")
-AArmOk(p)   == pc[p] = "a_arm" /\ dl' = "now" /\ goto(p, "s_load") /\ UNCHANGED <<st, tmp, probe>>
-AArmFail(p) == pc[p] = "a_arm" /\ ArmMayFail /\ goto(p, "x_load") /\ UNCHANGED <<st, dl, tmp, probe>>
+ACas(p) == pc[p] = "a_cas" /\ keepT /\ UNCHANGED <<dl, probe, spur>>
+            /\ IF st = tmp[p] THEN /\ st' = [st EXCEPT !.b = TRUE] /\ goto(p, "a_arm")
+                                   /\ hit' = hit \cup {w \in Writers : pc[w] \in InFlightPCs}
+                              ELSE UNCHANGED <<st, hit>> /\ goto(p, "a_load")
+AArmOk(p)   == keepH /\ pc[p] = "a_arm" /\ dl' = "now" /\ goto(p, "s_load") /\ UNCHANGED <<st, tmp, probe>>
+AArmFail(p) == keepH /\ pc[p] = "a_arm" /\ ArmMayFail /\ goto(p, "x_load") /\ UNCHANGED <<st, dl, tmp, probe>>
 \* setWriteDeadlineArmed
-SLoad(p) == pc[p] = "s_load" /\ load(p) /\ UNCHANGED <<st, dl, probe>>
+SLoad(p) == keepH /\ pc[p] = "s_load" /\ load(p) /\ UNCHANGED <<st, dl, probe>>
             /\ IF ~st.b \/ st.a THEN goto(p, "done") ELSE goto(p, "s_cas")
-SCas(p) == pc[p] = "s_cas" /\ keepT /\ UNCHANGED <<dl, probe>>
+SCas(p) == keepH /\ pc[p] = "s_cas" /\ keepT /\ UNCHANGED <<dl, probe>>
             /\ IF st = tmp[p] THEN st' = [st EXCEPT !.a = TRUE] /\ goto(p, "done")
                               ELSE UNCHANGED st /\ goto(p, "s_load")
 \* clearWriteAbortState (after a failed arm)
-XLoad(p) == pc[p] = "x_load" /\ load(p) /\ UNCHANGED <<st, dl, probe>>
+XLoad(p) == keepH /\ pc[p] = "x_load" /\ load(p) /\ UNCHANGED <<st, dl, probe>>
             /\ IF ~st.b /\ ~st.a THEN goto(p, "done") ELSE goto(p, "x_cas")
-XCas(p) == pc[p] = "x_cas" /\ keepT /\ UNCHANGED <<dl, probe>>
+XCas(p) == keepH /\ pc[p] = "x_cas" /\ keepT /\ UNCHANGED <<dl, probe>>
             /\ IF st = tmp[p] THEN st' = [st EXCEPT !.b = FALSE, !.a = FALSE] /\ goto(p, "done")
                               ELSE UNCHANGED st /\ goto(p, "x_load")
 
@@ -79,7 +85,7 @@ AllDone == \A p \in Procs : pc[p] = "done"
 \* ---- a later write by any user, after everybody has returned (atomic: nobody else is running)
 Probe == /\ AllDone /\ probe = "none"
          /\ probe' = IF st.b THEN "stuck" ELSE IF dl = "now" THEN "timeout" ELSE "ok"
-         /\ UNCHANGED <<st, dl, pc, tmp, left>>
+         /\ UNCHANGED <<st, dl, pc, tmp, left, hit, spur>>
 
 WStep(p) == WLoad(p) \/ WCas(p) \/ WWriteOk(p) \/ WWriteTmo(p) \/ FLoad(p) \/ FCasLast(p) \/ FCas(p)
             \/ CLoad(p) \/ CClear(p) \/ CStore(p)
@@ -91,12 +97,13 @@ Spec == Init /\ [][Next]_vars
         /\ \A q \in Aborters : WF_vars(AStep(q))
 
 \* ---- C13 predicates on the model (the monitor MuxWriteMon states the same over observations)
-InFlightPCs == {"w_write", "f_load", "f_caslast", "f_cas"}
 InFlight == Cardinality({p \in Writers : pc[p] \in InFlightPCs})
 Clean == AllDone => (st = S0 /\ dl = "none")
 \* n counts exactly the writers between start and finish (while the blocked last writer clears, n is already 0)
 CountExact == st.n = InFlight
 LaterWritesSucceed == probe \in {"none", "ok"}
+\* nobody's write fails with a timeout unless an abort took effect while that write was in flight
+NoSpuriousTimeout == ~spur
 \* the deadline is armed only under the blocked bit
 ArmedOnlyBlocked == (dl = "now" \/ st.a) => st.b
 NoStuckWriter == <>AllDone
